@@ -41,6 +41,8 @@ EXPRESSIONS = [
     "str(path('/a/b')) == '/a/b'", "uint16(80) == r.port", "filesize(5) > 1", "uri('http://h/p') == 'http://h/p'", "net.ipnetwork('10.0.0.0/8') == r.net", "wstring('x') == r.s", "uint32(80) == r.port", "boolean(1) == r.flag",
     "True", "False", "None", "1", "0", "'x'", "''", "[]", "[0]", "()", "1 == 1", "1 < 2 < 3", "3 > 2 > 2",
     # the text of a literal is taken as it is written: runs of blanks, tabs, line breaks and no-break spaces inside quotes belong to the value
+    # the reserved fields are fields like any other; an unset field holds None, which takes part in typed matching like any other value
+    "r._version == 1", "r._source == None", "r._classification is None", "r._source != 'x'", "r._version >= r.n", "Type.string == None", "Type.string != 'abc'", "None in [Type.string]",
     "Type.string in ['abc', 'x']", "Type.string not in ['abc']", "Type.varint in (5, 6)", "Type.varint not in [5]", "not (Type.string in ['abc'])",
     "r.s == 'a  b'", "'  ' in r.s", "r.s == 'a\tb'", "r.s   ==   'a b'", "r.s == '''a\nb'''", "r.s == 'a\xa0b'", "r.s in ['x  y', ' z ']",
 ]
